@@ -284,7 +284,11 @@ pub(crate) fn parse_struct(s: &ItemStruct, target_os: &[String]) -> Result<RustI
             if f.unnamed.len() > 1 {
                 return Err(ParseError::ComplexTupleStruct);
             }
-            let f = &f.unnamed[0];
+            let Some(f) = f.unnamed.first() else {
+                return Err(ParseError::UnsupportedType(
+                    "tuple struct without fields".to_string(),
+                ));
+            };
 
             let ty = if let Some(ty) = get_field_type_override(&f.attrs) {
                 ty.parse()?
